@@ -586,19 +586,37 @@ func (rc *runCtx) runLimit(i int) {
 
 type updSpec struct {
 	V1     bool
-	Lock   string // name the symlink is planted at: Chart.lock | requirements.lock | both | none
+	Lock   string // lock file name the planted name is derived from: Chart.lock | requirements.lock | "" (nothing planted)
+	At     string // name pattern of the planted symlink, "<lock>" standing for the lock file name
 	Target string // sibling-file | abs-canary | inside-values | inside-file | dangling-outside | sibling-yaml-lock
 	Deps   int
 	OldReg bool // a regular, outdated lock file exists (control for "rewrites its own lock")
 }
 
+// lockSiblings are the names next to the lock file at which a writer that goes through a
+// temporary or backup file could plausibly create one: the lock path itself first.
+var lockSiblings = []string{"<lock>", "<lock>.tmp", ".<lock>.tmp", "<lock>~", "<lock>.new", "<lock>.bak", "<lock>.tmp123456", ".<lock>.swp",
+	"<lock>.3847261", ".<lock>.Xa9Qz1", "tmp-<lock>", "<lock>.lock"}
+
+var updTargets = []string{"sibling-file", "abs-canary", "inside-values", "inside-file", "dangling-outside", "sibling-yaml-lock"}
+
 func updSpecs() []updSpec {
 	var out []updSpec
 	for _, v1 := range []bool{false, true} {
-		out = append(out, updSpec{V1: v1, Lock: "none", Deps: 1}, updSpec{V1: v1, Lock: "none", Deps: 2, OldReg: true})
-		for _, lock := range []string{"Chart.lock", "requirements.lock", "both"} {
-			for _, tgt := range []string{"sibling-file", "abs-canary", "inside-values", "inside-file", "dangling-outside", "sibling-yaml-lock"} {
-				out = append(out, updSpec{V1: v1, Lock: lock, Target: tgt, Deps: 1 + len(out)%2})
+		own, other := "Chart.lock", "requirements.lock"
+		if v1 {
+			own, other = other, own
+		}
+		out = append(out, updSpec{V1: v1, Deps: 1}, updSpec{V1: v1, Deps: 2, OldReg: true})
+		for _, at := range lockSiblings {
+			for _, tgt := range updTargets {
+				out = append(out, updSpec{V1: v1, Lock: own, At: at, Target: tgt, Deps: 1 + len(out)%2, OldReg: at != "<lock>" && len(out)%3 == 0})
+			}
+		}
+		// the other apiVersion's lock name (read by the loader, never written for this chart)
+		for _, at := range lockSiblings[:2] {
+			for _, tgt := range updTargets[:2] {
+				out = append(out, updSpec{V1: v1, Lock: other, At: at, Target: tgt, Deps: 1})
 			}
 		}
 	}
@@ -638,9 +656,14 @@ func (rc *runCtx) runUpdate(i int) {
 	if us.V1 {
 		lockName = "requirements.lock"
 	}
+	lockPath := filepath.Join(chartDir, lockName)
 	oldLock := "dependencies: []\ndigest: sha256:0000\ngenerated: \"2020-01-01T00:00:00Z\"\n"
-	if us.OldReg {
-		must(os.WriteFile(filepath.Join(chartDir, lockName), []byte(oldLock), 0o644))
+	planted := ""
+	if us.Lock != "" {
+		planted = strings.ReplaceAll(us.At, "<lock>", us.Lock)
+	}
+	if us.OldReg && planted != lockName {
+		must(os.WriteFile(lockPath, []byte(oldLock), 0o644))
 	}
 	target := ""
 	switch us.Target {
@@ -658,19 +681,17 @@ func (rc *runCtx) runUpdate(i int) {
 		must(os.WriteFile(filepath.Join(sb.Outside, "other.lock"), []byte(oldLock), 0o644))
 		target = filepath.Join(sb.Outside, "other.lock")
 	}
-	var planted []string
-	if target != "" {
-		for _, n := range []string{"Chart.lock", "requirements.lock"} {
-			if us.Lock == n || us.Lock == "both" {
-				must(os.Symlink(target, filepath.Join(chartDir, n)))
-				planted = append(planted, n)
-			}
-		}
-		sb.Layout = fmt.Sprintf("%s -> %s", strings.Join(planted, "+"), us.Target)
+	atShape := us.At
+	if us.Lock != "" && us.Lock != lockName {
+		atShape = strings.ReplaceAll(us.At, "<lock>", "<other apiVersion's lock>")
+	}
+	if planted != "" {
+		must(os.Symlink(target, filepath.Join(chartDir, planted)))
+		sb.Layout = fmt.Sprintf("%s -> %s", atShape, us.Target)
 	}
 	resolve := func(t string) string {
 		if filepath.IsAbs(t) {
-			return t
+			return filepath.Clean(t)
 		}
 		return filepath.Join(chartDir, t)
 	}
@@ -681,52 +702,76 @@ func (rc *runCtx) runUpdate(i int) {
 		b, err := os.ReadFile(resolve(target))
 		return string(b), err == nil
 	}
+	linkAt := func(p string) (string, bool) {
+		fi, err := os.Lstat(p)
+		if err != nil || fi.Mode()&os.ModeSymlink == 0 {
+			return "", false
+		}
+		l, _ := os.Readlink(p)
+		return l, true
+	}
 	tBefore, tExisted := readTarget()
+	lockLinkBefore, lockWasLink := linkAt(lockPath)
 	m := &downloader.Manager{Out: io.Discard, ChartPath: chartDir, SkipUpdate: true, Getters: getter.All(settings(sb)),
 		RepositoryConfig: filepath.Join(sb.Home, "repositories.yaml"), RepositoryCache: filepath.Join(sb.Home, "cache")}
 	if i%3 == 1 {
 		m.ChartPath = "../dest" // relative chart path (cwd is S/cwd)
 	}
-	tags := []string{fmt.Sprintf("apiVersion %s, symlink at %s -> %s", api, us.Lock, us.Target)}
+	tags := []string{fmt.Sprintf("apiVersion %s, symlink at %s -> %s", api, atShape, us.Target)}
 	desc := func() string {
-		return fmt.Sprintf("Manager.Update on chart dir %s (apiVersion %s, %d file:// dependencies, SkipUpdate, empty repositories file); planted: %v -> %q; chart dir after: %q", sb.rel(chartDir), api, us.Deps, planted, target, destListing(sb))
+		return fmt.Sprintf("Manager.Update on chart dir %s (apiVersion %s, %d file:// dependencies, SkipUpdate, empty repositories file, regular old lock %v); planted symlink: %q -> %q; chart dir after: %q", sb.rel(chartDir), api, us.Deps, us.OldReg, planted, target, destListing(sb))
 	}
-	// The planted target is judged by the dedicated clause below; keep it out of the generic diff
-	// only when it lies outside (inside targets are in the allowed zone anyway).
+	// A planted target outside the chart directory is judged by the dedicated clause below (one
+	// cause-shaped signature); keep it out of the generic diff.
 	if target != "" && !sb.allowed(resolve(target)) {
 		sb.Allowed = append(sb.Allowed, resolve(target))
 	}
 	accepted, err := rc.observe(sb, "Manager.Update", tags, desc, func() ([]string, error) { return nil, m.Update() })
 	rc.res.Stat("update_scenarios", 1)
-	if target != "" {
-		rc.res.Stat("update_scenarios_with_planted_lock_symlink", 1)
-		where := "outside the chart directory"
-		if strings.HasPrefix(us.Target, "inside") {
-			where = "inside the chart directory"
+	where := "outside the chart directory"
+	if strings.HasPrefix(us.Target, "inside") {
+		where = "inside the chart directory"
+	}
+	if planted != "" {
+		rc.res.Stat("update_scenarios_with_planted_symlink", 1)
+		if planted != lockName {
+			rc.res.Stat("update_scenarios_with_symlink_at_sibling_or_temporary_name", 1)
 		}
+		// (1) nothing may be written through the planted link: its target keeps its content
+		// (and a dangling target stays absent), wherever it lies
 		tAfter, tExists := readTarget()
-		for _, n := range planted {
-			if n != lockName {
-				continue // helm only writes the lock name of the chart's apiVersion
-			}
-			fi, lerr := os.Lstat(filepath.Join(chartDir, n))
-			stillLink := lerr == nil && fi.Mode()&os.ModeSymlink != 0
-			if (tExists != tExisted || tAfter != tBefore) && stillLink {
-				rc.res.Add("lock-written-through-symlink", fmt.Sprintf("Manager.Update (apiVersion %s): symlink at %s followed, target %s", api, n, where),
-					"Update (err=%v) wrote the lock through the symlink %s -> %q: target existed before %v, content before %q, after %q | %s", err, n, target, tExisted, clipS(tBefore), clipS(tAfter), desc())
-			}
-		}
-	} else if !accepted {
-		rc.res.Add("update-control-failed", "Manager.Update without planted symlinks", "Update failed on a plain chart with file:// dependencies: %v | %s", err, desc())
-	} else {
-		fi, lerr := os.Lstat(filepath.Join(chartDir, lockName))
-		if lerr != nil || !fi.Mode().IsRegular() {
-			rc.res.Add("update-control-failed", "Manager.Update wrote no regular lock file", "after a successful Update %s is missing or not regular (%v) | %s", lockName, lerr, desc())
-		} else {
-			rc.res.Stat("update_controls_wrote_regular_lock", 1)
+		if tExists != tExisted || tAfter != tBefore {
+			rc.res.Add("lock-written-through-symlink", fmt.Sprintf("Manager.Update (apiVersion %s): symlink at %s followed, target %s", api, atShape, where),
+				"Update (err=%v) wrote through the planted symlink %s -> %q: target existed before %v, content before %q, after %q | %s", err, planted, target, tExisted, clipS(tBefore), clipS(tAfter), desc())
 		}
 	}
-	rc.res.Key("update|%s|%s|%s|%v", api, us.Lock, us.Target, accepted)
+	// (2) whatever temporary-file scheme is used, the lock path must not END UP as a symlink that
+	// was not there before (a link we planted exactly there and that was left alone is the
+	// caller's state, not helm's doing)
+	if l, isLink := linkAt(lockPath); isLink && !(lockWasLink && l == lockLinkBefore) {
+		rc.res.Add("lock-path-became-symlink", fmt.Sprintf("Manager.Update (apiVersion %s): %s is a symlink afterwards (planted at %s, target %s)", api, "lock file", atShape, where),
+			"after Update (err=%v) %s is a symlink to %q; it was a link before: %v (%q) | %s", err, lockName, l, lockWasLink, lockLinkBefore, desc())
+	}
+	if planted == "" || planted != lockName {
+		// control: without a link at the lock path itself a successful Update leaves a regular lock file
+		switch {
+		case planted == "" && !accepted:
+			rc.res.Add("update-control-failed", "Manager.Update without planted symlinks", "Update failed on a plain chart with file:// dependencies: %v | %s", err, desc())
+		case accepted:
+			fi, lerr := os.Lstat(lockPath)
+			if lerr != nil || !fi.Mode().IsRegular() {
+				if planted == "" {
+					rc.res.Add("update-control-failed", "Manager.Update wrote no regular lock file", "after a successful Update %s is missing or not regular (%v) | %s", lockName, lerr, desc())
+				}
+			} else {
+				rc.res.Stat("update_wrote_regular_lock", 1)
+				if planted == "" {
+					rc.res.Stat("update_controls_wrote_regular_lock", 1)
+				}
+			}
+		}
+	}
+	rc.res.Key("update|%s|%s|%s|%v", api, atShape, us.Target, accepted)
 }
 
 func clipS(s string) string {
